@@ -39,6 +39,12 @@ CHECKS = {
  "C10": ("exploration", "enumeration of an (n, batch length, operand pattern) lattice through guarded API wrappers on the real preprocessing, relations recomputed from plain integers for every index and ordered pair",
          "fashare for n=2..5 over dense small lengths and block/batch boundaries, fashare+beaver_aand for n=2..4 with fresh, xor-combined and constant-forced operands (thorough: bucket sizes 5/4/3), the real trusted dealer with harness-side parties, and shared-coin agreement; MAC/key and AND relations are checked for every index and ordered pair.",
          "wrappers pass arguments through unchanged; default schedule", "4.C10", "E1"),
+ "C03": ("fault_enumeration", "exhaustive enumeration of single-field alterations of every online-phase message (structure-aware, per recipient) plus a tap-based forged garbled share, against the real engine",
+         "Every authenticated field of every online message of the corrupted party (input/output mask shares and MACs, masked-input equivocation, wire labels feeding AND gates, every garbled row, revealed output values and labels, broadcast echo), at every position (quick: first/middle/last of long vectors), for corrupted garbler and evaluator, n=2,3, and a garbler that garbles a flipped share bit into rows that still decrypt; the honest consumer must return Err.",
+         "one corrupted party, one altered field per execution; unread-by-design fields (inactive rows, labels not feeding an AND gate) are counted as trivial", "4.C03", "E1+E2"),
+ "C04": ("fault_enumeration", "exhaustive enumeration of single-field alterations of every preprocessing message with per-field consumption rules; trace monitors over model-checked schedules; wire-only challenge predictor compared with probes",
+         "(a) every field of every coin-toss, base-OT, OT-extension, aBit, aShare, HaAND/LaAND, bucket and Beaver message of the corrupted party, to one recipient and consistently to all, plus tap-based persistent liars: honest recipients of a consumed bad value return Err (by a check of their own where they hold the key/commitment); (b) reveal-after-all-commits on every schedule explored by the C12 explorer; (c) challenges recomputed from wire data available before the checked data is sent, compared with the challenge actually used, and reuse between checks.",
+         "negligible-probability forgeries treated as impossible; three protocol-flow findings (challenge fixed before data) are listed in known_findings.json", "4.C04", "E1+E2"),
 }
 
 NOT_YET = "check not built yet (construction in progress, see DESIGN.md section 8)"
